@@ -16,6 +16,11 @@ CHECKS = {
    note="trusted: refint::infix/prefix (checked i64 arithmetic within the 61-bit range, Rust f64, str ordering); operands outside the lattices are not covered"),
 }
 
+CHECKS["C05"] = dict(level="exploration", design="5/C05",
+   technique="bounded-exhaustive enumeration of input texts (all token strings up to length L, all character strings up to length n, all single-token edits and truncations of a corpus, directed size ladders) run through the public eval in isolated worker processes with a watchdog",
+   text="3.6 million inputs in the quick tier: all token strings of length <= 4 over a 43-token vocabulary, all texts of <= 3 characters over 36 character classes, every truncation and single-token edit of the corpus, and a directed boundary family including size ladders across the 8/16-bit limits and nesting/recursion depth ladders. Each must end in a value or one of the five error kinds: no panic, abort, probe breach, memory-limit hit or hang (instruction-budget exhaustion is accepted only for inputs spelling out a loop or function). Workers run on an ordinary 8 MiB stack so native-stack exhaustion is seen.",
+   note="trusted: worker isolation (rlimit, watchdog) and the instruction-budget hook; long random noise is not reachable by enumeration")
+
 NOT_YET = {}
 props = [json.loads(l) for l in open("/verif/properties.jsonl")]
 checks = []
